@@ -3,9 +3,13 @@ package main
 import (
 	"errors"
 	"fmt"
+	"os"
+	"path/filepath"
+	"runtime"
 	"strconv"
 	"strings"
 	"sync"
+	"time"
 
 	"github.com/pion/ice/v4"
 	"github.com/pion/sdp/v3"
@@ -259,6 +263,25 @@ func c30ExecHelper(a []string) string { //nolint:gocyclo,cyclop,maintidx
 		return "bad-op"
 	}
 	name := a[1]
+	if name == "rt" {
+		if len(a) < 3 {
+			return "bad-op"
+		}
+		idx, err := strconv.Atoi(a[2])
+		if err != nil {
+			return "bad-op"
+		}
+		bound := make([]bool, 0, len(a)-3)
+		for _, t := range a[3:] {
+			bound = append(bound, t == "1")
+		}
+		i, rerr := webrtc.VerifReceiverReadRTP(bound, idx)
+		if rerr != nil {
+			return "err"
+		}
+
+		return fmt.Sprintf("read %d", i)
+	}
 	if name == "rr" {
 		bound := make([]bool, 0, len(a)-2)
 		for _, t := range a[2:] {
@@ -515,6 +538,8 @@ func c30ExecHelper(a []string) string { //nolint:gocyclo,cyclop,maintidx
 		}
 
 		return fmt.Sprintf("add %d %s %s", int(tr.Kind()), hs(sid), hs(id))
+	case "probe":
+		return c30ExecProbe(params, d, s)
 	case "pt":
 		if len(params) != 1 {
 			return "bad-op"
@@ -708,6 +733,18 @@ func c30GenHelpers(c *Ctx, bases []c30Base) {
 			c.Emit("h rr %s", strings.Join(toks, " "))
 		}
 	}
+	// RTPReceiver.readRTP: every bound/unbound pattern of up to 3 tracks, every reader incl. a foreign one
+	for n := 0; n <= 3; n++ {
+		for bits := 0; bits < 1<<n; bits++ {
+			for idx := 0; idx <= n; idx++ {
+				toks := []string{}
+				for k := 0; k < n; k++ {
+					toks = append(toks, b2s(bits>>k&1 == 1))
+				}
+				c.Emit("h rt %d %s", idx, strings.Join(toks, " "))
+			}
+		}
+	}
 	// candidate extension strings for exportExtensions
 	words := []string{"generation", "0", "ufrag", "abc", "network-id", "1", "network-cost", "10", "tcptype", "active", "fail", "", "x"}
 	for i := 0; i < c.N(300, 6000); i++ {
@@ -729,5 +766,264 @@ func c30GenHelpers(c *Ctx, bases []c30Base) {
 	// packets for checkAndUpdateTrack
 	for i := 0; i < c.N(400, 8000); i++ {
 		c.Emit("h cut %s %s", strings.Join(ks, " "), hx(c30RTPPacket(r)))
+	}
+}
+
+// ---------------------------------------------------------------------------------------------
+// h probe: the whole handleIncomingSSRC including the mid / rid / rsid probing loop over the transceivers
+
+type c30ProbeTr struct {
+	shape, kind int // shape 0 send-only from a track (no receiver), 1 recvonly, 2 sendrecv, 3/4 = 1/2 stopped
+	mid         string
+	rids        []string
+}
+
+type c30ProbePkt struct {
+	mid, rid, rsid string
+	pad            bool
+}
+
+// c30ProbePacket builds an RTP packet whose one-byte header extensions carry the given values (an empty value
+// or an id outside 1..14 means the extension is absent).
+func c30ProbePacket(ssrc uint32, pt byte, seq int, ids [3]int, p c30ProbePkt) []byte {
+	b := []byte{
+		0x80, pt & 0x7f, byte(seq >> 8), byte(seq), 0, 0, 0, byte(seq),
+		byte(ssrc >> 24), byte(ssrc >> 16), byte(ssrc >> 8), byte(ssrc),
+	}
+	ext := []byte{}
+	for i, v := range []string{p.mid, p.rid, p.rsid} {
+		if v == "" || ids[i] < 1 || ids[i] > 14 || len(v) > 16 {
+			continue
+		}
+		ext = append(ext, byte(ids[i]<<4|(len(v)-1)))
+		ext = append(ext, v...)
+	}
+	if len(ext) > 0 {
+		for len(ext)%4 != 0 {
+			ext = append(ext, 0)
+		}
+		b[0] |= 0x10
+		b = append(b, 0xBE, 0xDE, byte(len(ext)/4>>8), byte(len(ext)/4))
+		b = append(b, ext...)
+	}
+	if p.pad {
+		b[0] |= 0x20
+		b = append(b, 0, 0, 0, 4)
+	} else {
+		b = append(b, 1, 2, 3, 4, 5)
+	}
+
+	return b
+}
+
+func c30ExecProbe(params []string, d c30Desc, s *sdp.SessionDescription) string { //nolint:cyclop
+	if len(params) < 14 {
+		return "bad-op"
+	}
+	if c30Ambiguous(d) || c30AmbiguousExt(d) {
+		return "ambiguous"
+	}
+	t := &c30Toks{t: params[7:], ok: true}
+	num := func() int {
+		v, err := strconv.Atoi(t.next())
+		if err != nil {
+			t.ok = false
+		}
+
+		return v
+	}
+	ssrc, pt := num(), num()
+	ids := [3]int{num(), num(), num()}
+	trs := []c30ProbeTr{}
+	for n := t.nat(); n > 0 && t.ok; n-- {
+		tr := c30ProbeTr{shape: num(), kind: num(), mid: t.str()}
+		for k := t.nat(); k > 0 && t.ok; k-- {
+			tr.rids = append(tr.rids, t.str())
+		}
+		trs = append(trs, tr)
+	}
+	pkts := []c30ProbePkt{}
+	for n := t.nat(); n > 0 && t.ok; n-- {
+		pkts = append(pkts, c30ProbePkt{mid: t.str(), rid: t.str(), rsid: t.str(), pad: t.next() == "1"})
+	}
+	if !t.ok || len(t.t) != 0 {
+		return "bad-op"
+	}
+	mode := 0
+	if params[1] == "1" {
+		mode = c30ModeUndeclNA
+	}
+	pc, err := c30NewPC(0, mode)
+	if err != nil {
+		return "bad-op newpc"
+	}
+	defer pc.Close() //nolint:errcheck
+	for _, tr := range trs {
+		kind := webrtc.RTPCodecTypeVideo
+		capab := webrtc.RTPCodecCapability{MimeType: webrtc.MimeTypeVP8, ClockRate: 90000}
+		if tr.kind == 1 {
+			kind = webrtc.RTPCodecTypeAudio
+			capab = webrtc.RTPCodecCapability{MimeType: webrtc.MimeTypeOpus, ClockRate: 48000, Channels: 2}
+		}
+		var t *webrtc.RTPTransceiver
+		switch tr.shape {
+		case 0:
+			track, terr := webrtc.NewTrackLocalStaticSample(capab, "t", "s")
+			if terr != nil {
+				return "bad-op track"
+			}
+			t, err = pc.AddTransceiverFromTrack(track, webrtc.RTPTransceiverInit{Direction: webrtc.RTPTransceiverDirectionSendonly})
+		case 1, 3:
+			t, err = pc.AddTransceiverFromKind(kind, webrtc.RTPTransceiverInit{Direction: webrtc.RTPTransceiverDirectionRecvonly})
+		default:
+			t, err = pc.AddTransceiverFromKind(kind, webrtc.RTPTransceiverInit{Direction: webrtc.RTPTransceiverDirectionSendrecv})
+		}
+		if err != nil {
+			return "bad-op transceiver"
+		}
+		if tr.mid != "" {
+			_ = t.SetMid(tr.mid)
+		}
+		webrtc.VerifConfigureReceiverRIDs(t, tr.rids)
+		if tr.shape >= 3 {
+			_ = t.Stop()
+		}
+	}
+	typ := webrtc.SDPTypeOffer
+	if params[0] == "1" {
+		typ = webrtc.SDPTypeAnswer
+	}
+	raw := [][]byte{}
+	for i, p := range pkts {
+		raw = append(raw, c30ProbePacket(uint32(ssrc), byte(pt), i+1, ids, p)) //nolint:gosec
+	}
+	classCh := make(chan string, 1)
+	go func() {
+		defer func() {
+			if rec := recover(); rec != nil {
+				classCh <- "panic " + c30Hash(fmt.Sprint(rec))
+			}
+		}()
+		classCh <- webrtc.VerifHandleIncomingSSRCProbe(pc, typ, s, webrtc.SSRC(ssrc), raw) //nolint:gosec
+	}()
+	var class string
+	select {
+	case class = <-classCh:
+	case <-time.After(60 * time.Second):
+		// a hang: keep the goroutine stacks for diagnosis
+		buf := make([]byte, 1<<20)
+		buf = buf[:runtime.Stack(buf, true)]
+		_ = os.WriteFile(filepath.Join(c30LogDir(), fmt.Sprintf("hang-%d.txt", os.Getpid())), buf, 0o644)
+
+		return "hang probe"
+	}
+	if strings.HasPrefix(class, "panic ") {
+		return class
+	}
+	if class != "nil" {
+		return class
+	}
+	all := pc.GetTransceivers()
+	if len(all) > len(trs) { // handleUndeclaredSSRC added a transceiver for the SSRC
+		tr := all[len(all)-1]
+		id, sid := "", ""
+		if t := tr.Receiver().Track(); t != nil {
+			id, sid = t.ID(), t.StreamID()
+		}
+
+		return fmt.Sprintf("add %d %s %s", int(tr.Kind()), hs(sid), hs(id))
+	}
+	if i, how := webrtc.VerifProbeChoice(pc, webrtc.SSRC(ssrc)); i >= 0 { //nolint:gosec
+		return fmt.Sprintf("%s %d", how, i)
+	}
+
+	return "declared"
+}
+
+// c30GenProbes emits h probe ops: descriptions that negotiate the mid / rid extensions (and mutated ones),
+// 1–5 transceivers of every shape, 1–6 packets naming their mids (receiver-less ones included), unknown
+// and empty mids, rids with and without mid, rsid only, padding-only packets.
+func c30GenProbes(c *Ctx, bases []c30Base) {
+	r := c.Rng
+	good := []c30Base{}
+	for _, b := range bases {
+		if strings.Contains(b.sdp, "sdes:rtp-stream-id") {
+			good = append(good, b)
+		}
+	}
+	if len(good) == 0 {
+		return
+	}
+	mids := []string{"0", "1", "2", "video", "9"}
+	rids := []string{"q", "h", "f"}
+	for i := 0; i < c.N(150, 3000); i++ {
+		b := good[r.Intn(len(good))]
+		text := b.sdp
+		if r.Intn(4) == 0 {
+			text, _ = c30Mutate(r, b.sdp, 1+r.Intn(2))
+		}
+		parsed := &sdp.SessionDescription{}
+		if parsed.UnmarshalString(text) != nil {
+			continue
+		}
+		d := c30FromSDP(parsed)
+		isAnswer, withoutAnswer := r.Intn(4) != 0, r.Intn(5) == 0
+		typ := webrtc.SDPTypeOffer
+		if isAnswer {
+			typ = webrtc.SDPTypeAnswer
+		}
+		mode := 0
+		if withoutAnswer {
+			mode = c30ModeUndeclNA
+		}
+		pts := c30FormatPTs(d)
+		pt := byte(96)
+		if len(pts) > 0 && r.Intn(5) != 0 {
+			pt = pts[r.Intn(len(pts))]
+		}
+		pc, err := c30NewPC(0, mode)
+		if err != nil {
+			continue
+		}
+		o := webrtc.VerifIncomingSSRCOracle(pc, typ, d.toSDP(), webrtc.PayloadType(pt))
+		midID, ridID, rsidID := webrtc.VerifHeaderExtensionIDs(pc, typ, d.toSDP())
+		_ = pc.Close()
+		if midID > 14 || ridID > 14 || rsidID > 14 {
+			continue
+		}
+		sb := strings.Builder{}
+		fmt.Fprintf(&sb, "h probe %s %s %s %s %s %s %s %d %d %d %d %d", b2s(isAnswer), b2s(withoutAnswer), b2s(o.MidOK),
+			b2s(o.RidOK), b2s(o.KnownPT), b2s(o.AudioCodecs), b2s(o.VideoOK), 424242+r.Intn(3), pt, midID, ridID, rsidID)
+		nt := 1 + r.Intn(5)
+		fmt.Fprintf(&sb, " %d", nt)
+		used := []string{}
+		for k := 0; k < nt; k++ {
+			mid := mids[r.Intn(len(mids))]
+			if r.Intn(8) == 0 {
+				mid = ""
+			}
+			used = append(used, mid)
+			shape := []int{0, 0, 1, 1, 2, 3, 4}[r.Intn(7)]
+			nr := r.Intn(4)
+			fmt.Fprintf(&sb, " %d %d %s %d", shape, 1+r.Intn(2), hs(mid), nr)
+			for _, x := range rids[:nr] {
+				sb.WriteString(" " + hs(x))
+			}
+		}
+		np := 1 + r.Intn(6)
+		fmt.Fprintf(&sb, " %d", np)
+		for k := 0; k < np; k++ {
+			mid := used[r.Intn(len(used))]
+			switch r.Intn(6) {
+			case 0:
+				mid = ""
+			case 1:
+				mid = []string{"7", "nope", "0123456789abcdef"}[r.Intn(3)]
+			}
+			rid := []string{"q", "h", "", "zz", "q"}[r.Intn(5)]
+			rsid := []string{"", "", "", "q", "zz"}[r.Intn(5)]
+			fmt.Fprintf(&sb, " %s %s %s %s", hs(mid), hs(rid), hs(rsid), b2s(r.Intn(7) == 0))
+		}
+		c.Emit("%s %s", sb.String(), d.encode())
 	}
 }
